@@ -218,7 +218,10 @@ def rebuild(defs, inputs=None, name="R"):
                     v = rd["value"]
                     if v.startswith("<"):
                         continue      # object-valued references: second pass, when every target exists
-                    setattr(s, rn, None if v == "N" else int(v))
+                    if rd.get("mode", "auto") != "auto":
+                        s.set_ref(rn, None if v == "N" else int(v), rd["mode"])
+                    else:
+                        setattr(s, rn, None if v == "N" else int(v))
                 except Exception as e:
                     problems.append("ref %s.%s: %r" % (path, rn, e))
             if sd.get("param"):
@@ -385,12 +388,20 @@ def gen_next(rng, live, cfg, prev=None, focus=None):
         nm = rng.choice(W.REFS)
         if rng.random() < cfg.get("cross_names", 0.0):
             nm = rng.choice(W.CELLS + W.CHILD)
+        mode = None
+        if cfg.get("ref_modes") and rng.random() < cfg["ref_modes"]:
+            # the reference mode is a part of the definition that derived references take from their first definer
+            mode = rng.choice(["auto", "relative", "absolute"])
         if rng.random() < cfg.get("obj_refs", 0.0):
             # an object-valued reference: a cells (or a space) of the model
             tp, ts = rng.choice(spaces)
+            if mode in ("auto", "relative"):
+                tp, ts = path, s        # relative binding means something for targets in the defining space
             if list(ts.cells) and rng.random() < 0.8:
-                return ["set_ref", path, nm, ["obj", tp + "." + rng.choice(list(ts.cells))], "absolute"]
-            return ["set_ref", path, nm, ["obj", tp], "absolute"]
+                return ["set_ref", path, nm, ["obj", tp + "." + rng.choice(list(ts.cells))], mode or "absolute"]
+            return ["set_ref", path, nm, ["obj", tp], mode or "absolute"]
+        if mode is not None:
+            return ["set_ref", path, nm, rng.randint(0, 9), mode]
         return ["set_ref", path, nm, rng.randint(0, 9)]
     if k == "set_param":
         if ext and rng.random() < 0.7:
@@ -574,6 +585,24 @@ class Hooks:
     def end(self, live, ops, out, stats): pass
 
 
+def observe(out, hist, what, fn, *args):
+    """run an observation (a hook of a property, a description of the model, an oracle's own replay).
+    An exception that comes out of the implementation while the harness merely LOOKS at the model is
+    itself an observation - the implementation left the model in a state that cannot be looked at -
+    and is reported as a failure with the history; anything else is a fault of the harness.
+    Returns (ok, result)."""
+    try:
+        return True, fn(*args)
+    except core.Infra:
+        raise
+    except Exception as e:
+        if not core.raised_by_impl(e):
+            raise
+        out.fail("the model cannot be observed %s: modelx raised %s" % (what, core.impl_error_text(e)),
+                 hist() if callable(hist) else hist)
+        return False, None
+
+
 def run_one(ops, out, stats, hooks, cfg, rng=None, n_ops=0, seed_ops=None, gen=None):
     close_all()
     live = W.Live("M")
@@ -587,27 +616,42 @@ def run_one(ops, out, stats, hooks, cfg, rng=None, n_ops=0, seed_ops=None, gen=N
     try:
         hooks.start(live, stats)
         k = 0
+        broken = False
         while True:
             if k >= len(ops):
                 if rng is None or k >= n_ops:
                     break
-                ops.append((gen or gen_next)(rng, live, cfg, ops, focus=focus))
+                ok, nxt = observe(out, lambda: hist_json(ops), "when choosing the next operation", lambda: (gen or gen_next)(rng, live, cfg, ops, focus=focus))
+                if not ok:
+                    broken = True
+                    break
+                ops.append(nxt)
             op = ops[k]
-            hooks.before(live, ops, k, op, stats)
+            ok, _ = observe(out, lambda: hist_json(ops, k - 1), "before %s" % op[0], hooks.before, live, ops, k, op, stats)
+            if not ok:
+                broken = True
+                break
             if op[0] == "evalall":
-                eval_everything(live)
+                ok, _ = observe(out, lambda: hist_json(ops, k), "by evaluating every cells", eval_everything, live)
+                if not ok:
+                    broken = True
+                    break
                 r = "ok"
             else:
                 r = live.apply(op)
             stats["op:" + op[0]] += 1
             if r.startswith("err") and op[0] != "eval":
                 stats["rejected:" + op[0]] += 1
-            hooks.after(live, ops, k, op, r, out, stats)
+            ok, _ = observe(out, lambda: hist_json(ops, k), "after %s (%s)" % (op[0], r.split(" ")[0]),
+                            hooks.after, live, ops, k, op, r, out, stats)
+            if not ok:
+                broken = True
+                break
             k += 1
             if len(out.failures) >= 3:
                 break
-        if len(out.failures) < 3:
-            hooks.end(live, ops, out, stats)
+        if len(out.failures) < 3 and not broken:
+            observe(out, lambda: hist_json(ops), "at the end of the history", hooks.end, live, ops, out, stats)
     finally:
         live.close()
         close_all()
@@ -773,16 +817,34 @@ MOTIFS_EXT = [
 ]
 
 
-def motifs_for(cfg):
+def base_motifs(cfg):
     return MOTIFS + MOTIFS_EXT if cfg and cfg.get("ext") else MOTIFS
 
 
-def motif(rng, weights=None, pool=None):
-    pool = MOTIFS if pool is None else pool
+def motifs_for(cfg):
+    """the shared motif programs (with the extended ones for `ext`) plus the ones a property adds for itself
+    (cfg["extra_motifs"])"""
+    return base_motifs(cfg) + list((cfg or {}).get("extra_motifs", ()))
+
+
+def motif(rng, weights=None, pool=None, cfg=None):
+    if pool is None:
+        pool = motifs_for(cfg) if cfg is not None else MOTIFS
     if weights:
         weights = list(weights) + [1] * (len(pool) - len(weights))
     m = rng.choices(pool, weights)[0] if weights else rng.choice(pool)
     return [list(o) for o in m]
+
+
+def uncached_variants(m):
+    """the motif program with one of its cells uncached from its creation on (assignments to that name
+    are dropped: an uncached cells refuses them)"""
+    out = []
+    for i, o in enumerate(m):
+        if o[0] == "new_cells":
+            out.append([list(x) for x in m[:i + 1]] + [["set_cached", o[1], o[2], 0]]
+                       + [list(x) for x in m[i + 1:] if not (x[0] == "set_value" and x[2] == o[2])])
+    return out
 
 
 def single_edits(live, ext=False):
@@ -905,12 +967,21 @@ def ext_sequences(live, edits, rng, exhaustive, thorough=False, cap_pairs=24, ca
 def enumerate_edits(ctx, out, prop, hooks_factory, cfg, stats, quick_per_motif=16, pairs_per_motif=6):
     """small-scope exhaustive part: after every motif program (everything evaluated), every
     applicable single edit (quick tier: a seeded sample), followed by evaluating everything
-    again; plus sampled pairs of edits.  Runs through the property's own hooks."""
+    again; plus sampled pairs of edits.  Runs through the property's own hooks.
+    With cfg["uncached_variants"] every motif program is also run with each one of its cells uncached
+    (quick tier: the edits of cfg["enum_always"] plus a small sample, no pairs)."""
     ext = bool(cfg.get("ext"))
+    nbase = len(base_motifs(cfg))
+    programs = []
     for mi, m in enumerate(motifs_for(cfg)):
         if not m:
             continue
-        is_ext_motif = mi >= len(MOTIFS)
+        programs.append((mi, m, False))
+        if cfg.get("uncached_variants"):
+            for vi, v in enumerate(uncached_variants(m)):
+                programs.append(("%s.u%d" % (mi, vi), v, True))
+    for mi, m, variant in programs:
+        is_ext_motif = isinstance(mi, int) and len(MOTIFS) <= mi < nbase
         prefix = [["set_mref", "u", 11], ["set_mref", "r", 12]] + [list(o) for o in m] + [["evalall"]]
         close_all()
         live = W.Live("M")
@@ -920,29 +991,45 @@ def enumerate_edits(ctx, out, prop, hooks_factory, cfg, stats, quick_per_motif=1
                     eval_everything(live)
                 else:
                     live.apply(op)
-            edits = single_edits(live, ext=ext)
+            ok, edits = observe(out, hist_json(prefix), "after a motif program", single_edits, live, ext)
             rng = ctx.rng("enum", prop, mi)
-            extseqs = ext_sequences(live, edits, ctx.rng("enum-ext", prop, mi), exhaustive=is_ext_motif,
-                                    thorough=ctx.tier == "thorough") if ext else []
-            refed = ref_edits_existing(live, edits) if is_ext_motif else []
+            extseqs, refed = [], []
+            if ok:
+                extseqs = ext_sequences(live, edits, ctx.rng("enum-ext", prop, mi), exhaustive=is_ext_motif,
+                                        thorough=ctx.tier == "thorough") if ext and not variant else []
+                refed = ref_edits_existing(live, edits) if is_ext_motif else []
         finally:
             live.close()
             close_all()
-        chosen = edits if ctx.tier == "thorough" else rng.sample(edits, min(len(edits), quick_per_motif))
+        if not ok:
+            continue
+        if variant:
+            edits = [e for e in edits if e[0] != "set_value"]
+        extra = isinstance(mi, int) and mi >= nbase
+        per = quick_per_motif if not variant else 4
+        if extra and cfg.get("extra_light"):
+            per = 6
+        chosen = edits if ctx.tier == "thorough" else rng.sample(edits, min(len(edits), per))
         chosen = chosen + [e for e in refed if e not in chosen]     # extended motifs: every edit of an existing reference
         chosen = chosen + [e for e in edits if e[0] in cfg.get("enum_always", ()) and e not in chosen]
+        if extra:
+            # a property's own motifs: also every edit of the kinds it names (e.g. adding ONE base anywhere)
+            chosen = chosen + [e for e in edits if e not in chosen and any(pred(e) for pred in cfg.get("extra_always", ()))]
         seqs = [[e] for e in chosen]
-        for _ in range(pairs_per_motif * (4 if ctx.tier == "thorough" else 1)):
+        if variant:
+            stats["uncached_variant_programs"] += 1
+        light = (variant or (extra and cfg.get("extra_light"))) and ctx.tier != "thorough"
+        for _ in range(0 if light else pairs_per_motif * (4 if ctx.tier == "thorough" else 1)):
             seqs.append([rng.choice(edits), ["evalall"], rng.choice(edits)])
         # structured pairs: a value edit / clear of one element, then a reference or base edit
         first = [e for e in edits if e[0] in ("set_value", "clear")]
         second = [e for e in edits if e[0] in ("set_ref", "del_ref", "set_mref", "remove_bases", "add_bases", "new_space")]
-        if first and second:
+        if first and second and not light:
             allpairs = [[a, b] for a in first for b in second]
             for pr in (allpairs if ctx.tier == "thorough" else rng.sample(allpairs, min(len(allpairs), 10))):
                 seqs.append(pr)
         # a base edit followed by an unrelated structural edit (orders must survive graph copies)
-        for e in [e for e in edits if e[0] == "add_bases" and len(e[2]) == 2][:(99 if ctx.tier == "thorough" else 4)]:
+        for e in [e for e in edits if e[0] == "add_bases" and len(e[2]) == 2][:(99 if ctx.tier == "thorough" else 4 if not light else 0)]:
             seqs.append([e, ["new_space", "-", "D" if not any(p == "D" for p in [x[2] for x in m if x[0] == "new_space"]) else "B", []]])
         seqs += extseqs
         stats["enumerated_ext_sequences"] += len(extseqs)
